@@ -1395,7 +1395,7 @@ func (c *control) dirT(colon, at bool, params []any) {
 			start++
 			from = len(c.out) - start
 		}
-		if from == from/colinc*colinc {
+		if colinc == 0 || from == from/colinc*colinc {
 			target = from
 		} else {
 			target = from/colinc*colinc + colinc
@@ -1410,7 +1410,11 @@ func (c *control) dirT(colon, at bool, params []any) {
 		}
 		target = colnum * colinc
 		if target < from {
-			target = from/colinc*colinc + colinc
+			if colinc == 0 {
+				target = from
+			} else {
+				target = from/colinc*colinc + colinc
+			}
 		}
 	}
 	target -= from
